@@ -68,6 +68,8 @@ def case_strategy():
             # f.next(...) in plain functions, self.f.next(...) in methods with self; with the keyword arguments too
             fns = ["call_next", "call_next", "call_next", "next"]
             own = {"fn": draw(st.sampled_from(fns)), "npos": len(m["pos"]), "kws": [p["name"] for p in m["kw"]]}
+            if own["fn"] == "next":
+                own["form"] = draw(st.sampled_from([None, None, "explicit", "lambda"]))
             sites = [own]
             if draw(st.integers(0, 2)) == 0:
                 sites.append({"fn": draw(st.sampled_from(["call_next", "recurse"])),
